@@ -17,7 +17,7 @@ From Coq Require Import ZArith List Bool.
 From Coq.Strings Require Import Byte.
 From Verif Require Import Lib.Bytes Gen.GenConsts Model.Wire Model.EvalLib Model.EvalCore Model.EvalSession
   Proofs.EvalNum Proofs.EvalOps Proofs.EvalRun Proofs.EvalRefute Proofs.EvalIf Proofs.EvalStd Proofs.EvalIfOpen
-  Proofs.EvalEnv Proofs.EvalSession Gen.GenC19 Proofs.EvalFootprint.
+  Proofs.EvalEnv Proofs.EvalSession Gen.GenC19 Proofs.EvalFootprint Proofs.EvalP2sh.
 From Coq.Strings Require String.
 Import Coq.Strings.String.StringSyntax.
 Delimit Scope string_scope with string.
@@ -1055,6 +1055,38 @@ Example frozen_footprint_is :
    ("Script.evaluate"%string, "message"%string); ("Script.evaluate"%string, "stack"%string)].
 Proof. split; reflexivity. Qed.
 
+(* --- parsed P2SH spends: Script.parse hands evaluate() the commands of the pushed redeem script followed by
+       OP_HASH160 <h> OP_EQUAL, with env_data['redeemscript'] = the bytes the scriptSig pushed; the library's
+       OP_CHECKMULTISIG leaves those bytes on the stack.  The commitment step is valid exactly when the output commits to
+       the HASH160 of the bytes AS PUSHED (BIP16); a re-serialised copy with another encoding does not satisfy it. --- *)
+Theorem p2sh_commitment_is_hash_of_pushed_bytes :
+  forall h_ripemd160 h_sha1 h_sha256 sigcheck e (pushed h : bytes) (fuel : nat),
+    r_verdict (lib_run h_ripemd160 h_sha1 h_sha256 sigcheck e (4 + fuel) (p2sh_tail h) [pushed]) = Valid
+    <-> h = hash160 h_ripemd160 h_sha256 pushed.
+Proof. exact p2sh_commits_to_pushed_bytes. Qed.
+Theorem p2sh_reserialised_redeemscript_rejected :
+  forall h_ripemd160 h_sha1 h_sha256 sigcheck e (pushed canon : bytes) (fuel : nat),
+    hash160 h_ripemd160 h_sha256 canon <> hash160 h_ripemd160 h_sha256 pushed ->
+    r_verdict (lib_run h_ripemd160 h_sha1 h_sha256 sigcheck e (4 + fuel)
+                       (p2sh_tail (hash160 h_ripemd160 h_sha256 canon)) [pushed]) = Invalid.
+Proof. exact p2sh_reserialised_copy_rejected. Qed.
+(* non-vacuity: with an injective stand-in for the hash functions, the bytes as pushed satisfy their own commitment and
+   the canonical copy (direct push 21 instead of OP_PUSHDATA1 4c 21) does not *)
+Example p2sh_commitment_example :
+  let idh := fun x : bytes => x in
+  let e0 := mkEnv None None None None in
+  r_verdict (lib_run idh idh idh (fun _ _ => SigInvalid) e0 4 (p2sh_tail [x51; x4c; x01; x02]) [[x51; x4c; x01; x02]]) = Valid /\
+  r_verdict (lib_run idh idh idh (fun _ _ => SigInvalid) e0 4 (p2sh_tail [x51; x01; x02]) [[x51; x4c; x01; x02]]) = Invalid.
+Proof. vm_compute. split; reflexivity. Qed.
+
+(* recorded finding pushed_data_executed: Script.parse hands evaluate() the COMMANDS of a pushed item it cannot type
+   (here the five bytes 51 51 51 51 51) instead of the item; against the output OP_DEPTH OP_5 OP_EQUAL the library
+   evaluation is valid, consensus - one item on the stack - is not *)
+Example pushed_data_executed_refuted :
+  r_verdict (lib_eval1 [COp 81; COp 81; COp 81; COp 81; COp 81; COp 116; COp 85; COp 135]) = Valid /\
+  fst (core_eval1 [CPush [x51; x51; x51; x51; x51]; COp 116; COp 85; COp 135]) = Invalid.
+Proof. vm_compute. split; reflexivity. Qed.
+
 Print Assumptions dispatch_is_core_opcode.
 Print Assumptions dispatchable_all_modelled.
 Print Assumptions dispatch_only_dispatchable.
@@ -1138,3 +1170,5 @@ Print Assumptions session_agrees_with_core.
 Print Assumptions interpreter_touches_no_module_state.
 Print Assumptions interpreter_attribute_writes_are_frozen.
 Print Assumptions interpreter_self_reads_are_frozen.
+Print Assumptions p2sh_commitment_is_hash_of_pushed_bytes.
+Print Assumptions p2sh_reserialised_redeemscript_rejected.
